@@ -565,6 +565,57 @@ template<typename E> static void run_hashfirst(long k)
 	cleanup_case();
 }
 
+// ---- BucketOpenN1::AddCrt / BucketOpen2N2::AddCrt (items inline in the bucket; metadata after the creator) ---------------
+#include "momo/details/HashBucketOpenN1.h"
+#include "momo/details/HashBucketOpen2N2.h"
+template<typename E, typename Bucket> static void run_openadd_b(size_t n, long k)
+{
+	const char* outcome = "Ok";
+	{
+		E* arg = lives<E>(7, 1);
+		AMM mm;
+		typename Bucket::Params params(mm);
+		alignas(Bucket) static unsigned char buf[sizeof(Bucket)];
+		Bucket* bucket = ::new(static_cast<void*>(buf)) Bucket();      // never destroyed (its destructor asserts count == 0)
+		for (size_t j = 0; j < n; ++j)
+		{
+			auto crt = [j] (E* p) { ::new(static_cast<void*>(p)) E(int64_t(100 + j)); };
+			bucket->AddCrt(params, crt, size_t(j) << 56, 3, 0);
+		}
+		begin_case(k);
+		try
+		{
+			auto crt = [arg] (E* p) { ::new(static_cast<void*>(p)) E(static_cast<const E&>(*arg)); };
+			bucket->AddCrt(params, crt, size_t(9) << 56, 3, 0);
+		}
+		catch (...) { outcome = "Exn"; }
+		W().disarm(); W().elogging = false;
+		size_t cnt = bucket->GetBounds(params).GetCount();
+		std::string out = W().errors.empty() ? std::string(outcome) : ("Stuck(" + W().errors[0] + ")"), evs, vals;
+		for (auto& e : W().elog)
+		{
+			if (e.kind != 'C' && e.kind != 'M' && e.kind != 'X' && e.kind != 'F') continue;
+			if (!evs.empty()) evs += " ";
+			evs += std::string(1, e.kind);
+		}
+		std::vector<int64_t> vs;
+		for (auto& kv : W().objs) if (kv.first != arg) vs.push_back(**reinterpret_cast<int64_t* const*>(kv.first));
+		std::sort(vs.begin(), vs.end());
+		for (int64_t v : vs) { if (!vals.empty()) vals += " "; vals += std::to_string(v); }
+		printf("cnt=%zu %s | %s | %s\n", cnt, out.c_str(), evs.c_str(), vals.c_str());
+	}
+	cleanup_case();
+}
+template<typename E> static void run_openadd(const std::string& kind, size_t n, long k)
+{
+	typedef momo::HashSetItemTraits<E, AMM> IT;
+	typedef momo::internal::HashSetBucketItemTraits<IT> BIT;
+	if (kind == "n1") run_openadd_b<E, momo::internal::BucketOpenN1<BIT, 4, false>>(n, k);
+	else if (kind == "n1r") run_openadd_b<E, momo::internal::BucketOpenN1<BIT, 4, true>>(n, k);
+	else if (kind == "o2") run_openadd_b<E, momo::internal::BucketOpen2N2<BIT, 3, true>>(n, k);
+	else puts("?");
+}
+
 int main()
 {
 	g_arena = static_cast<char*>(std::malloc(ARENA));
@@ -573,6 +624,12 @@ int main()
 	{
 		std::istringstream is(line); std::string mech, cat; size_t n = 0; long k = -1;
 		is >> mech >> cat >> n >> k;
+		if (mech == "openadd")
+		{
+			std::string kind; is >> kind;
+			if (cat == "N") run_openadd<kit::ElemNtm>(kind, n, k); else if (cat == "C") run_openadd<kit::ElemCpo>(kind, n, k); else if (cat == "T") run_openadd<kit::ElemThm>(kind, n, k); else puts("?");
+			fflush(stdout); continue;
+		}
 		if (mech == "hashfirst")
 		{
 			if (cat == "N") run_hashfirst<kit::ElemNtm>(k); else if (cat == "C") run_hashfirst<kit::ElemCpo>(k); else if (cat == "T") run_hashfirst<kit::ElemThm>(k); else puts("?");
